@@ -8,7 +8,8 @@
 (*                                                                         *)
 (*   trace == [id, op, sig : Seq(SigEntry),                                *)
 (*             calls : Seq([cid, args : Seq([sup, leaves, canon]),         *)
-(*                          r : request summary, suspects : Seq(Nat)])]    *)
+(*                          r : request summary, suspects : Seq(Nat),      *)
+(*                          want_expected : BOOLEAN])]                     *)
 (*                                                                         *)
 (* `sig` is the OBSERVED python signature bound to the declared parameters *)
 (* by the harness (folded names, then position) - never by the sanitiser   *)
@@ -47,7 +48,9 @@ MJudge ==
                                     fails |-> SetToSeq(verdict'),
                                     model_dead |-> m.pc = "dead",
                                     model |-> SetToSeq(IF m.pc = "dead" THEN {} ELSE Failures(call, m.req)),
-                                    ante |-> Ante(call, req)]))
+                                    ante |-> Ante(call, req),
+                                    \* the reference request itself, on demand: the harness corrupts it into negative traces
+                                    expected |-> IF Traces[tid].calls[cid].want_expected THEN ExpectedRequest(call) ELSE NoReq]))
   /\ UNCHANGED <<tid, cid, call, pc, env, req>>
 
 MSpec == MInit /\ [][MJudge]_<<vars, tid, cid, done>>
